@@ -544,6 +544,59 @@ fn c19(p: &Prog, rec: &mut Rec, tier: u8) {
         if r.panic.is_some() || r.outcomes != base.outcomes {
             rec.v("max_branches", "", format!("max_branches = {} (the exact need) ended with {:?} / {} results vs {}", l, r.kind().map(|k| k.short()), r.outcomes.len(), base.outcomes.len()));
         }
+        // the same limits for a run that is resumed from a checkpoint (the stored path is loaded, then the limit applied):
+        // for a few stop points k, the remaining executions need L_k = the longest path from iteration k on; resuming with
+        // any smaller limit must fail as documented, resuming with L_k must complete
+        if l >= 3 && base.iters >= 3 && rec.idx % 3 == 0 {
+            let n = base.iters;
+            let dir = verif_root().join("work");
+            let _ = std::fs::create_dir_all(&dir);
+            let file = dir.join(format!("c19-ckpt-{}-{}.json", std::process::id(), rec.idx)).to_string_lossy().to_string();
+            let copy = format!("{}.run", file);
+            let mut ks = vec![2, n / 2 + 1, n - 1];
+            ks.retain(|k| *k >= 2 && *k <= n);
+            ks.dedup();
+            'ks: for k in ks {
+                let lk = base.paths[k - 1..].iter().map(|x| x.len()).max().unwrap_or(0);
+                if lk < 3 {
+                    continue;
+                }
+                let _ = std::fs::remove_file(&file);
+                let mut cfg = base_cfg(tier);
+                cfg.checkpoint_file = Some(file.clone());
+                cfg.checkpoint_interval = Some(1);
+                cfg.max_permutations = Some(k);
+                cfg.keep_paths = false;
+                let first = run(p, &cfg);
+                account(rec, &first);
+                if first.panic.is_some() || !std::path::Path::new(&file).exists() {
+                    continue;
+                }
+                let mut ms: Vec<usize> = (lk.saturating_sub(6).max(1)..lk).rev().collect();
+                ms.push((lk / 2).max(1));
+                ms.push(lk);
+                for m in ms {
+                    let _ = std::fs::copy(&file, &copy);
+                    let mut cfg = base_cfg(tier);
+                    cfg.checkpoint_file = Some(copy.clone());
+                    cfg.checkpoint_interval = Some(1);
+                    cfg.max_branches = Some(m);
+                    cfg.keep_paths = false;
+                    let r = run(p, &cfg);
+                    account(rec, &r);
+                    if m < lk && r.kind() != Some(PanicKind::BranchLimit) {
+                        rec.v("max_branches", "resumed", format!("resumed at iteration {} (of {}) with max_branches = {} (the remaining executions need {}): ended with {:?} instead of the branch-limit panic: {}", k, n, m, lk, r.kind().map(|k| k.short()), r.panic.as_deref().unwrap_or("").lines().next().unwrap_or("")));
+                        break 'ks;
+                    }
+                    if m == lk && r.panic.is_some() {
+                        rec.v("max_branches", "resumed", format!("resumed at iteration {} (of {}) with max_branches = {} (the exact need of the remaining executions): {:?}", k, n, m, r.kind().map(|k| k.short())));
+                        break 'ks;
+                    }
+                }
+            }
+            let _ = std::fs::remove_file(&file);
+            let _ = std::fs::remove_file(&copy);
+        }
     }
     // --- max_permutations with checkpoint interval c: stop at the first boundary >= m, no failure, prefix of the full sequence
     let n = base.iters;
